@@ -342,6 +342,15 @@ impl<'a, T: ?Sized> Drop for MutexGuard<'a, T> {
   }
 }
 
+#[derive(Clone, Copy, Debug, PartialEq, Eq)]
+pub struct WaitTimeoutResult(bool);
+
+impl WaitTimeoutResult {
+  pub fn timed_out(&self) -> bool {
+    self.0
+  }
+}
+
 #[derive(Default)]
 pub struct Condvar {
   inner: std::sync::Condvar,
@@ -383,6 +392,60 @@ impl Condvar {
         };
         Ok(MutexGuard { mutex, inner: Some(g), rel: None })
       }
+    }
+  }
+
+  pub fn wait_timeout<'a, T>(
+    &self,
+    mut guard: MutexGuard<'a, T>,
+    dur: Duration,
+  ) -> LockResult<(MutexGuard<'a, T>, WaitTimeoutResult)> {
+    let mutex = guard.mutex;
+    match guard.rel.take() {
+      Some((ctx, m)) => {
+        guard.rel = Some((ctx.clone(), m));
+        rt::post_acquire_point(&ctx);
+        guard.rel = None;
+        guard.inner = None;
+        drop(guard);
+        let timed_out = rt::cond_wait_timed(&ctx, self.addr(), m, dur.as_nanos().min(u64::MAX as u128) as u64);
+        let g = mutex
+          .try_lock_real()
+          .expect("arx_rt: model granted a mutex (after timed wait) the real one refuses");
+        Ok((MutexGuard { mutex, inner: Some(g), rel: Some((ctx, m)) }, WaitTimeoutResult(timed_out)))
+      }
+      None => {
+        let g = guard.inner.take().unwrap();
+        drop(guard);
+        let (g, r) = match self.inner.wait_timeout(g, dur) {
+          Ok(x) => x,
+          Err(p) => p.into_inner(),
+        };
+        Ok((MutexGuard { mutex, inner: Some(g), rel: None }, WaitTimeoutResult(r.timed_out())))
+      }
+    }
+  }
+
+  pub fn wait_timeout_while<'a, T, F>(
+    &self,
+    mut guard: MutexGuard<'a, T>,
+    dur: Duration,
+    mut condition: F,
+  ) -> LockResult<(MutexGuard<'a, T>, WaitTimeoutResult)>
+  where
+    F: FnMut(&mut T) -> bool,
+  {
+    let start = Instant::now();
+    loop {
+      if !condition(&mut *guard) {
+        return Ok((guard, WaitTimeoutResult(false)));
+      }
+      let elapsed = start.elapsed();
+      if elapsed >= dur {
+        return Ok((guard, WaitTimeoutResult(true)));
+      }
+      let (g, _) = self.wait_timeout(guard, dur - elapsed)?;
+      guard = g;
     }
   }
 
@@ -462,6 +525,46 @@ impl<T> JoinHandle<T> {
         Ok(g) => g.is_some(),
         Err(_) => true,
       },
+    }
+  }
+}
+
+/// `thread::Builder` look-alike: name and stack size are accepted and ignored inside an
+/// execution (threads come from the runtime's pool)
+#[derive(Debug, Default)]
+pub struct Builder {
+  name: Option<String>,
+  stack: Option<usize>,
+}
+
+impl Builder {
+  pub fn new() -> Builder {
+    Builder::default()
+  }
+  pub fn name(mut self, name: String) -> Builder {
+    self.name = Some(name);
+    self
+  }
+  pub fn stack_size(mut self, size: usize) -> Builder {
+    self.stack = Some(size);
+    self
+  }
+  pub fn spawn<F, T>(self, f: F) -> std::io::Result<JoinHandle<T>>
+  where
+    F: FnOnce() -> T + Send + 'static,
+    T: Send + 'static,
+  {
+    if rt::in_exec() {
+      Ok(spawn(f))
+    } else {
+      let mut b = std::thread::Builder::new();
+      if let Some(n) = self.name {
+        b = b.name(n);
+      }
+      if let Some(s) = self.stack {
+        b = b.stack_size(s);
+      }
+      b.spawn(f).map(JoinHandle::Std)
     }
   }
 }
